@@ -20,12 +20,12 @@ K = 44                       # observed floats are shipped as round(x * 2^K)
 NGRID = 12                   # fractional grid points p / NGRID
 BIG0 = {"s": 0, "d": []}
 
-ROUTES_GENERIC = ["vectors", "params_rad", "params_deg", "triclinic_rad", "triclinic_deg"]
+ROUTES_GENERIC = ["vectors", "params_rad", "params_deg", "triclinic_rad", "triclinic_deg", "respec_vectors", "respec_params"]
 FAMILY_ROUTES = {
     "cubic": ["cubic"],
     "tetragonal": ["tetragonal_rad", "tetragonal_deg"],
-    "orthorhombic": ["orthorhombic"],
-    "hexagonal": ["hexagonal"],
+    "orthorhombic": ["orthorhombic", "orthorhombic_deg"],
+    "hexagonal": ["hexagonal", "hexagonal_deg"],
     "rhombohedral": ["rhombohedral_rad", "rhombohedral_deg"],
     "monoclinic": ["monoclinic_rad", "monoclinic_deg"],
     "triclinic": [],
@@ -149,6 +149,22 @@ def build(route, recipe):
         return UnitCell.tetragonal(a, c, unit="degrees"), "UnitCell.tetragonal(%r, %r, unit='degrees')" % (a, c)
     if route == "hexagonal":
         return UnitCell.hexagonal(a, c), "UnitCell.hexagonal(%r, %r)" % (a, c)
+    if route == "hexagonal_deg":         # the unit keyword only concerns angles the caller passes: there are none here
+        return UnitCell.hexagonal(a, c, unit="degrees"), "UnitCell.hexagonal(%r, %r, unit='degrees')" % (a, c)
+    if route == "orthorhombic_deg":
+        return UnitCell.orthorhombic(a, b, c, unit="degrees"), "UnitCell.orthorhombic(%r, %r, %r, unit='degrees')" % (a, b, c)
+    if route == "respec_vectors":
+        # an existing cell of another geometry, used (volume, reciprocal lengths queried), then re-specified in place
+        V = np.array(recipe["L"], dtype=float) * s
+        cell = UnitCell.from_lengths_and_angles([2.5 * a, 0.7 * b, 1.3 * c], [1.2, 1.4, 1.9])
+        cell.volume(), cell.a_star, cell.b_star, cell.c_star, cell.parameters
+        cell.set_vectors(V)
+        return cell, "UnitCell.from_lengths_and_angles(other).volume(); .set_vectors(%r)" % (V.tolist(),)
+    if route == "respec_params":
+        cell = UnitCell(np.array([[3.1 * a, 0.0, 0.0], [0.4, 1.7 * b, 0.0], [0.3, -0.5, 0.6 * c]]))
+        cell.volume(), cell.a_star, cell.b_star, cell.c_star, cell.parameters
+        cell.set_lengths_and_angles(lengths, angles)
+        return cell, "UnitCell(other vectors).volume(); .set_lengths_and_angles(%r, %r)" % (lengths, angles)
     if route == "rhombohedral_rad":
         return UnitCell.rhombohedral(a, al), "UnitCell.rhombohedral(%r, %r)" % (a, al)
     if route == "rhombohedral_deg":
@@ -294,7 +310,7 @@ def recipe_for(rng, kind, M, source, family=None, all_routes=False):
         return None
     fam = family or family_of(G)
     wrappers = ["triclinic_rad", "triclinic_deg", "unique_triclinic"]
-    routes = (["vectors"] if kind == "L" else []) + ["params_rad", "params_deg"]
+    routes = (["vectors", "respec_vectors"] if kind == "L" else []) + ["params_rad", "params_deg", "respec_params"]
     routes += wrappers if all_routes else [rng.choice(wrappers)]
     if fam != "triclinic":
         routes += FAMILY_ROUTES[fam] + ["unique_" + fam]
